@@ -31,6 +31,7 @@ func init() {
 			{"C14.converters", "converter layers forward on store, backward on read", 3, c14Converters},
 			{"C14.message-body-fresh", "a protocol message's body is its own allocation", 1, func(c *Ctx) { c.messageBodyFresh() }},
 			{"C14.retried-reader-fresh", "a reader consumed inside a retry cycle is created inside it", 1, func(c *Ctx) { c.retriedReaderFresh() }},
+			{"C14.server-plumbing", "the chunk server's verify/write/auth options reach the handler arguments they are named after (shared with C15)", 8, c15Plumbing},
 		},
 	})
 }
